@@ -254,10 +254,6 @@ theorem dedup_keys_perm (f₁ f₂ : Bool) (key : β → Nat) (l₁ l₂ : List 
   rw [mem_keys_dedup, mem_keys_dedup]
   exact (h.map key).mem_iff
 
-/-- an order-preserving shuffle, as a function (what the task shuffles are proved to be) -/
-def orderedShuffle (ps : List (List (Nat × β))) (n : Nat) : List (List (Nat × β)) :=
-  (List.range n).map fun p => ps.flatten.filter fun r => r.1 == p
-
 /-- **any shuffle that delivers the right rows to every output, in ANY order** (the partd-based disk shuffle
     collects pieces in arrival order): the key column of the result is still pandas' — `unique`, `nunique` and
     the set of distinct keys of `drop_duplicates` do not depend on the order -/
